@@ -144,6 +144,7 @@ def run(ctx, rep):
     check_kzg_decision(fx, rep)
     check_ecrecover_decision(fx, rep)
     check_msm_pairing(fx, rep)
+    check_bn128_pair_wiring(fx, rep)
     check_mapping(ctx.facts('default'), rep)
     rep.assume('the linked libraries compute the functions their EIPs name; inputs longer than 2^32 bytes are not considered in the formula grids')
 
@@ -1342,3 +1343,91 @@ def check_msm_pairing(fx, rep):
             rep.violation('R11-msm-pairing', key, '%s: an iteration appends %s (points, scalars): the two arrays get out of step and later points are multiplied by the scalars of other items' % (key, sorted(shapes - {(0, 0), (1, 1)})), f.where())
         else:
             rep.ok('R11-msm-pairing', key, 'point and scalar appended together or both skipped')
+
+
+# ------------------------------------------------------------------ R12
+
+def _range_exprs(sv, out):
+    if not isinstance(sv, tuple):
+        return
+    if sv and sv[0] == 'agg' and isinstance(sv[1], str) and sv[1].endswith('::Range') and len(sv) > 4:
+        vals = dict(zip(sv[3], sv[4]))
+        out.append((vals.get('start'), vals.get('end')))
+        return
+    for x in sv:
+        if isinstance(x, tuple):
+            _range_exprs(x, out)
+
+
+def check_bn128_pair_wiring(fx, rep):
+    """R12: EIP-197 pairing input, per 192-byte element: G1 (x, y) at words 0, 1; the G2 point as
+    x = (imaginary word 2, real word 3), y = (imaginary word 4, real word 5), i.e.
+    Fq2::new(real = word 3, imaginary = word 2) and Fq2::new(word 5, word 4); AffineG2::new(x, y).
+    Offsets are evaluated from the extracted range expressions with the element index set to 0."""
+    f = fx.fns.get(P + 'bn128::run_pair')
+    if f is None:
+        rep.undecided('R12-bn128-pair', 'run_pair', 'not found')
+        return
+    rep.fn(f)
+    try:
+        rs = Symx(fx, max_paths=40000, snapshot_refs=True).run(f)
+    except Budget:
+        rep.undecided('R12-bn128-pair', 'run_pair', 'path budget', f.where())
+        return
+    body = [r for r in rs if r.cut and any(e[0].endswith('Vec::push') for e in r.events)]
+    if not body:
+        rep.undecided('R12-bn128-pair', 'run_pair', 'no loop-body path that stores a pair', f.where())
+        return
+    env = {'__sym__': lambda r: 0}
+
+    def words(arg):
+        out = []
+        _range_exprs(arg, out)
+        res = []
+        for a, b in out:
+            try:
+                lo, hi = ev(a, env), ev(b, env)
+            except NoValue:
+                return None
+            if hi - lo != 32 or lo % 32:
+                return None
+            res.append(lo // 32)
+        return res
+    problems = set()
+    for r in body:
+        g1 = [e for e in r.events if e[0].endswith('bn128::new_g1_point')]
+        fq2 = [e for e in r.events if e[0].endswith('Fq2::new')]
+        aff = [e for e in r.events if e[0].endswith('AffineG2::new')]
+        if len(g1) != 1 or [words(a) for a in g1[0][1][:2]] != [[0], [1]]:
+            problems.add('the G1 point is not built from words (0, 1): %s' % ([words(a) for a in g1[0][1][:2]] if g1 else None))
+        got = [[words(a) for a in e[1][:2]] for e in fq2]
+        if got != [[[3], [2]], [[5], [4]]]:
+            problems.add('the G2 coordinates are built as Fq2::new%s; EIP-197 encodes each as (imaginary, real), so Fq2::new(real, imaginary) takes words (3, 2) and (5, 4)' % got)
+        for e in aff:
+            if [words(a) for a in e[1][:2]] != [[3, 2], [5, 4]]:
+                problems.add('AffineG2::new(x, y) receives %s' % [words(a) for a in e[1][:2]])
+    # the verdict: 1 for empty input, else pairing_batch(points) == Gt::one(); a length that is not a
+    # multiple of the element size is the error Bn128PairLength
+    oks = [r for r in rs if not r.cut and r.ret[0] == 'agg' and r.ret[2] == 'Ok']
+    shapes = set()
+    for r in oks:
+        out = r.ret[4][0][2][1] if r.ret[4][0][0] == 'call' and len(r.ret[4][0][2]) > 1 else None
+        empty = [lit_truth(l[1]) for l in r.lits if render(l[0]).startswith('is_empty(&arg1')]
+        arg = out[2][0] if out is not None and out[0] == 'call' and out[1].endswith('bool_to_bytes32') and out[2] else None
+        if arg == K(1) and empty and empty[0] is True:
+            shapes.add('empty->true')
+        elif arg is not None and arg[0] == 'call' and arg[1].split('::')[-1] == 'eq' and 'pairing_batch(' in render(arg) and 'one()' in render(arg) and empty and empty[0] is False:
+            shapes.add('product==one')
+        else:
+            problems.add('a successful path answers %s' % (render(out)[:70] if out else '?'))
+    if shapes != {'empty->true', 'product==one'}:
+        problems.add('verdict paths recognised: %s (need the empty input answering true and the comparison of the pairing product with one)' % sorted(shapes))
+    if not any(not r.cut and 'Bn128PairLength' in render(r.ret) and any(render(l[0]).startswith('Ne(Rem(len(&arg1), 192), 0)') and lit_truth(l[1]) is True for l in r.lits) for r in rs):
+        problems.add('no rejection of an input length that is not a multiple of 192')
+    lens = {c: fx.const_val(P + 'bn128::' + c) for c in ('PAIR_ELEMENT_LEN',)}
+    if lens['PAIR_ELEMENT_LEN'] != 192:
+        problems.add('PAIR_ELEMENT_LEN is %s' % lens['PAIR_ELEMENT_LEN'])
+    if problems:
+        rep.violation('R12-bn128-pair', 'run_pair', 'BN254 pairing: ' + sorted(problems)[0], f.where())
+    else:
+        rep.ok('R12-bn128-pair', 'run_pair', 'G1 from words 0,1; G2 x = Fq2(3,2), y = Fq2(5,4)')
